@@ -8,10 +8,15 @@ use std::panic::{AssertUnwindSafe, catch_unwind};
 use librqbit_utp::verif as v;
 
 mod comp_rtte;
+mod comp_rx;
 mod comp_seqnr;
 mod util;
 
-const DISPATCHERS: &[fn(&[&str]) -> Option<String>] = &[comp_seqnr::dispatch, comp_rtte::dispatch];
+const DISPATCHERS: &[fn(&[&str]) -> Option<String>] = &[
+    comp_seqnr::dispatch,
+    comp_rtte::dispatch,
+    comp_rx::dispatch,
+];
 
 fn run_consts() -> String {
     v::constants()
